@@ -193,10 +193,24 @@ TOKENS = ['\\x7b', '\\x7d', '\\x2c', '\\x7c', '\\173', '\\54', '\\N{LEFT CURLY B
 CHARS = ['\\', 'x', 'u', 'U', 'N', 'a', 'n', '0', '1', '7', '8', '4', 'f', '{', '}', '/', '*', '[', ']']
 
 
+def boundary_tokens():
+    """Every escape kind at the edges of its value range, and with hex digits in either case."""
+    out = ['\\x' + h for h in ('00', '7f', '80', 'ff', '4A', '4a', 'Af', 'FF')]
+    out += ['\\' + o for o in ('0', '7', '77', '377', '400', '777', '08')]
+    out += ['\\u' + h for h in ('0001', '007f', '0080', '00ff', '0100', 'd7ff', 'e000', 'ffff', '00AF', 'FFFF')]
+    out += ['\\U' + h for h in ('00000001', '0000ffff', '00010000', '0001F600', '000fffff', '00100000', '0010ffff', '0010FFFF', '00100041', '00110000', '7fffffff', 'ffffffff')]
+    out += ['\\N{latin small letter a}', '\\N{Latin Small Letter A}', '\\N{NULL}', '\\N{LATIN CAPITAL LETTER A WITH GRAVE}', '\\N{GRINNING FACE}']
+    return out
+
+
 def patterns(ctx, rnd):
     out = []
     for t in TOKENS:
         out.append(t)
+    for t in boundary_tokens():
+        out.append(t)
+        out.append(t + '*')
+        out.append('[' + t + ']')
     for a, b in itertools.product(TOKENS, repeat=2):
         out.append(a + b)
     for k in (1, 2, 3):
@@ -215,7 +229,7 @@ def patterns(ctx, rnd):
             seen.add(p)
             res.append(p)
     if ctx.quick:
-        head = res[:len(TOKENS) * (len(TOKENS) + 1)]
+        head = res[:len(TOKENS) * (len(TOKENS) + 1) + 3 * len(boundary_tokens())]
         tail = res[len(head):]
         rnd.shuffle(tail)
         res = head + tail[:4500]
